@@ -39,9 +39,9 @@ from vf.gen import c20_site
 LEVEL = "exploration"
 RULE = ("case = one multi-process run: generated site (3-7 templates, redirects, 2-4 Lua modules, data modules, 4-9 pages) "
         "on one db file; variant grid enumerated exhaustively: {plain, backup file present, backup present + db file absent, "
-        "WAL left by a SIGKILLed predecessor} x worker start {os.fork, separately started interpreters with distinct PYTHONHASHSEED} x bootstrap page {present, absent} x k workers (quick 2,3,4,8; thorough 2,4,8,12,16); "
+        "WAL left by a SIGKILLed predecessor} x worker start {os.fork, separately started interpreters with distinct PYTHONHASHSEED} x bootstrap page {present as the package writes it, present with other content, absent} x k workers (quick 2,3,4,8; thorough 2,4,8,12,16); "
         "per case seeded random: start offsets (0-50 ms, some late 100-300 ms), per-worker delay scale (0/2/8/30 ms per traced line), "
-        "page subsets and orders (Lua-first or shuffled); plus long-lived-worker cases (one or two workers pause between pages so that they "
+        "page subsets and orders (Lua-first or shuffled), page source (about a third of the workers take their pages from the get_all_pages() generator and process them inside that loop, the others look them up by title); plus db-in-tempdir cases (the store lies directly in the workers' tempfile.gettempdir(); one worker starts after the first ones have closed), plus long-lived-worker cases (one or two workers pause between pages so that they "
         "stay alive ~7 s after their first Lua use while the others reach their first #invoke later; bootstrap page absent) and slow-reader cases (one worker holds a get_all_pages() cursor ~6 s "
         "while the others do their first Lua use). distinct = variant + cross-worker order of the critical events "
         "(exists?/unlink/rename/connect/schema, bootstrap exists?/add/commit); non-trivial = >=2 workers overlapped inside "
@@ -51,6 +51,10 @@ ASSUMPTIONS = [
     "schedules are explored by perturbation (line-level sleeps <= 30 ms, far below SQLite's 5 s busy timeout), not exhaustively; evidence reports the distinct interleavings seen",
     "the WAL-from-killed-predecessor variant is not combined with a backup file (stale -wal after restore is C11's subject)",
     "'stored pages unchanged' when a backup file exists = the pages of the backup file (what a single open serves after its restore)",
+    "iterate-mode workers: `for page in ctx.get_all_pages([0]): ctx.start_page(page.title); ctx.expand(page.body)` is the README's own way to walk a store; the connection's SELECT is unfinished during the page work",
+    "db-in-tempdir cases: only the WORKERS see the store's directory as tempfile.gettempdir() (tempfile.tempdir set in the worker before Wtp()); the store is built and the single-process reference runs with the ordinary temp directory; every worker calls close_db_conn() when it is done, as before",
+    "bootstrap page 'present with other content': a stored page titled Module:_sandbox_phase1 whose body/model differ from the empty Scribunto row; 'stored pages unchanged' applies to it like to any other row",
+    "a failure that follows a worker's own failed Lua initialisation (later #invoke of the same worker) is reported under the signature of that first failure",
     "long-lived-worker cases: a worker that spends seconds between pages (real per-page work) is ordinary use; lifetimes overlapping by more than the 5 s busy timeout are what makes a write transaction left open by one worker observable in the others",
     "slow-reader cases: holding a get_all_pages() generator open for ~6 s is ordinary use (README iterates pages while workers run); it is what makes the WAL journal mode observable",
     "fork cases: workers are forked from the shard process (real processes, own Wtp, own sqlite connection); the shard process holds no sqlite connection at fork time",
@@ -68,6 +72,9 @@ KEYLINES = {
 }
 CRITICAL = {l for v in KEYLINES.values() for _, l in v}
 BOOT = ("Module:_sandbox_phase1", 828, None, 0, "", "Scribunto")
+FOREIGN_BOOT = [("-- reserved: sandbox bootstrap placeholder\n", "wikitext"), ("return {}", "Scribunto"), ("", "wikitext")]
+STALE = "worker-raises:OperationalError(locked)/without-waiting/own-get_all_pages-cursor-open(read snapshot stale after another worker's commit)"
+TMPD = "db-deleted-by-close_db_conn(db_path directly in tempfile.gettempdir())"
 RACE = "restore-race(backup exists()->unlink->rename entered by >=2 workers)"
 LONG = 7.0  # seconds a long-lived worker stays alive after its first page (> 5 s busy timeout + start offsets of the others)
 HOLD = 6.3  # seconds the slow reader keeps its cursor open (> 5 s default busy timeout)
@@ -82,12 +89,13 @@ def floors(tier):
             "counters.variant.backup": 4, "counters.variant.wal": 4, "counters.variant.bootstrap-absent": 4,
             "counters.variant.bootstrap-present": 4, "counters.variant.slow-reader": 1, "counters.variant.long-lived-worker": 1,
             "counters.variant.spawn": 8, "counters.spawn+backup.runs": 4, "counters.spawn+backup.restore-contended-by>=2.runs": 3,
-            "sets.hash-salts": 8,
+            "sets.hash-salts": 8, "counters.variant.db-in-gettempdir": 2, "counters.variant.bootstrap-present-with-other-content": 4,
+            "counters.iterate-mode.workers": 20, "counters.iterate-mode.first-lua-after-foreign-commit-with-own-cursor-open": 3,
             "counters.long-lived.lua-starts-while-bootstrapper-alive>5s": 1, "counters.variant.nodb": 1,
             "counters.bootstrap-row-added.runs": 2, "counters.restore-window-entered-by>=2.runs": 2 if q else 30,
             "sets.interleavings": 25 if q else 700, "sets.k": 4,
             "anchors.core.create_db": 100, "anchors.luaexec.add_empty_sandbox_lua_module": 50,
-            "anchors.luaexec.initialize_lua": 50, "anchors.core.add_page": 5, "anchors.core.expand": 300,
+            "anchors.luaexec.initialize_lua": 50, "anchors.core.expand": 300,
             "nontrivial": 15 if q else 400}
 
 
@@ -96,8 +104,11 @@ def grid(tier):
     out = []
     # (variant, how the workers are started): forked children share the parent's str-hash salt,
     # separately started interpreters ("spawn") each get their own PYTHONHASHSEED
-    for var, spawn in (("plain", 0), ("backup", 0), ("wal", 0), ("backup", 1), ("plain", 1), ("nodb", None), ("wal", 1), ("backup", 1)):
-        for boot in (True, False):
+    # third element: what "bootstrap page present" means in this column -- the row the package itself
+    # writes (True) or a stored page of that title with OTHER content ("foreign")
+    for var, spawn, present in (("plain", 0, True), ("backup", 0, "foreign"), ("wal", 0, True), ("backup", 1, True),
+                                ("plain", 1, "foreign"), ("nodb", None, True), ("wal", 1, "foreign"), ("backup", 1, True)):
+        for boot in (present, False):
             for k in ks:
                 c = {"var": var, "boot": boot, "k": k}
                 if spawn or (spawn is None and boot):
@@ -126,6 +137,9 @@ def shards(tier, seed):
         for j in range(slow if i >= 2 or tier == "thorough" else 0):
             cases.insert(2 + j * (per // max(1, slow)), {"var": "plain", "boot": False, "k": 2 + (i + j) % 3, "long": 1 + (i + j) % 2,
                                                           "seed": seed * 1000003 + i * 10007 + 9500 + j})
+        for j in range(slow):
+            cases.insert(3 + j * (per // max(1, slow)), {"var": "plain", "boot": bool((i + j) % 2), "k": 3 + (i + j) % 2, "tmpd": True,
+                                                          "spawn": bool((i + j) % 3 == 0), "seed": seed * 1000003 + i * 10007 + 9700 + j})
         out.append({"idx": i, "nsh": nsh, "cases": cases, "tier": tier})
     return out
 
@@ -295,6 +309,8 @@ def worker_main(wi, logpath, db, plan, go_r, go_w, ready_w):
                 sleep(rng.random() * scale)
         elif event == "return":
             emit("ev", mono(), co.co_name + "<")
+        elif event == "exception":
+            emit("ev", mono(), co.co_name + "!")
         return local
 
     def tracer(frame, event, arg):
@@ -313,6 +329,9 @@ def worker_main(wi, logpath, db, plan, go_r, go_w, ready_w):
         if plan["offset"] > 0:
             time.sleep(plan["offset"])
     emit("start", mono(), os.getpid(), hash("c20-salt-probe") & 0xFFFFFFFF)
+    if plan.get("tmpd"):
+        import tempfile
+        tempfile.tempdir = os.path.dirname(db)      # the store lies directly in this process's temp directory
     from wikitextprocessor import Wtp
     ctx = None
     sys.settrace(tracer)
@@ -335,11 +354,29 @@ def worker_main(wi, logpath, db, plan, go_r, go_w, ready_w):
             except BaseException as e:
                 emit("exc", mono(), "<get_all_pages>", exc_info(e))
         elif ctx is not None:
-            for title in plan["order"]:
+            if plan.get("iter"):
+                # the worker takes its pages from the get_all_pages() generator and processes each inside
+                # the loop: the connection's SELECT stays unfinished during the page work
+                wanted = set(plan["order"])
+
+                def source():
+                    emit("iter-open", mono())
+                    try:
+                        for page in ctx.get_all_pages([0]):
+                            if page.title in wanted:
+                                yield page.title, page
+                    except BaseException as e:
+                        emit("exc", mono(), "<get_all_pages>", exc_info(e))
+                    emit("iter-close", mono())
+            else:
+                def source():
+                    for t in plan["order"]:
+                        yield t, None
+            for title, pg in source():
                 try:
                     emit("begin", mono(), title)
                     ctx.start_page(title)
-                    body = ctx.get_page_body(title, 0)
+                    body = ctx.get_page_body(title, 0) if pg is None else pg.body
                     out = None
                     if body is not None:
                         with cpu_guard(20):
@@ -353,10 +390,12 @@ def worker_main(wi, logpath, db, plan, go_r, go_w, ready_w):
                     time.sleep(plan["think"])      # per-page work outside the package
         sys.settrace(None)
         if ctx is not None:
+            there = os.path.exists(db)
             try:
                 ctx.close_db_conn()
             except BaseException as e:
                 emit("exc", mono(), "<close>", dict(exc_info(e), phase="close"))
+            emit("closed", mono(), there, os.path.exists(db))
     finally:
         sys.settrace(None)
     emit("anchors", anchors.snapshot())
@@ -386,7 +425,9 @@ def site_rows(site, boot):
     if not shim.real_present():
         rows.append(("Module:ustring:ustring", 828, shim.USTRING, "Scribunto", None))
         rows.append(("Module:libraryUtil", 828, shim.LIBUTIL, "Scribunto", None))
-    if boot:
+    if boot == "foreign":
+        rows.append((BOOT[0], BOOT[1]) + FOREIGN_BOOT[len(rows) % len(FOREIGN_BOOT)] + (None,))
+    elif boot:
         rows.append((BOOT[0], BOOT[1], BOOT[4], BOOT[5], None))
     return rows
 
@@ -488,7 +529,11 @@ def plans(case):
             else:
                 offset = 0.3 + rng.random() * 0.5
                 think = rng.random() * 0.15
-        out.append({"seed": case["seed"] * 131 + w, "offset": offset, "scale": scale, "order": order, "think": think})
+        it = rng.random() < 0.35
+        if case.get("tmpd") and w == k - 1:
+            offset = 1.2 + rng.random() * 0.5          # starts when the first workers have already closed
+        out.append({"seed": case["seed"] * 131 + w, "offset": offset, "scale": scale, "order": order, "think": think,
+                    "iter": it, "tmpd": bool(case.get("tmpd"))})
     if case.get("slow"):
         out.append({"seed": 0, "offset": 0.0, "scale": 0.0, "order": [], "role": "reader", "hold": HOLD})
     return out, lua_first
@@ -606,6 +651,7 @@ def _execute(case, obs, base):
     anch = {}
     ends = {}
     salts_seen, crit_sections = [], []
+    iter_span, closers = {}, []
     for w, (plan, lg) in enumerate(zip(pl, logs)):
         status = st.get(pids[w])
         ended = any(r[0] == "end" for r in lg)
@@ -613,6 +659,12 @@ def _execute(case, obs, base):
         for r in lg:
             if r[0] == "start" and len(r) > 3:
                 salts_seen.append(r[3])
+            elif r[0] == "iter-open":
+                iter_span[w] = [r[1], float("inf")]
+            elif r[0] == "iter-close" and w in iter_span:
+                iter_span[w][1] = r[1]
+            elif r[0] == "closed":
+                closers.append((r[1], w, bool(r[2]), bool(r[3])))
         # restore critical section of this worker: from the line after 'BEGIN EXCLUSIVE' to the lock's close line
         evs = [(r[1], r[2]) for r in lg if r[0] == "ev"]
         locks = [i for i, (_, l) in enumerate(evs) if l == "restore.lock"]
@@ -627,7 +679,7 @@ def _execute(case, obs, base):
                     t_in["c"] = r[1]
                 elif r[2] == "create_db<" and "c" in t_in:
                     intervals["create_db"].append((t_in.pop("c"), r[1], w))
-                elif r[2] == "boot.exists?":
+                elif r[2] == "add_empty_sandbox_lua_module>":
                     t_in["b"] = r[1]
                 elif r[2] == "add_empty_sandbox_lua_module<" and "b" in t_in:
                     intervals["boot"].append((t_in.pop("b"), r[1], w))
@@ -652,7 +704,8 @@ def _execute(case, obs, base):
                 rd = ref_exc.get(title)
                 if rd is not None and rd["type"] == d["type"] and rd.get("inner") == d.get("inner"):
                     continue   # the single process fails the same way on this page: not a C20 matter
-                anomalies.append(("exc", dict(d, w=w, title=title, t=r[1])))
+                anomalies.append(("exc", dict(d, w=w, title=title, t=r[1],
+                                              own_cursor_open=bool(w in iter_span and iter_span[w][0] <= r[1] <= iter_span[w][1]))))
             elif r[0] == "page":
                 pages_done += 1
                 title, out = r[2], r[3]
@@ -681,7 +734,7 @@ def _execute(case, obs, base):
                         sub = "other"
                     anomalies.append(("result", {"w": w, "title": title, "sub": sub, "got": got_t, "want": ref.get(title),
                                                  "page": site.render(site.pages[title])[:300]}))
-            if r[0] in ("page", "start", "hold", "exc", "rows", "begin") or (r[0] == "ev" and not r[2].endswith("<")):
+            if r[0] in ("page", "start", "hold", "exc", "rows", "begin", "iter-open", "iter-close", "closed") or (r[0] == "ev" and not r[2].endswith(("<", "!"))):
                 t_prev = r[1]
             if r[0] == "rows":
                 rows = {(x[0], x[1]): tuple(x) for x in r[2]}
@@ -713,6 +766,9 @@ def _execute(case, obs, base):
                 obs.check("table.row")
             if key not in after:
                 table_bad = table_bad or ("row-missing", "row %r is gone" % (key,))
+            elif after[key] != row and key == BOOT[:2]:
+                anomalies.append(("table", {"sub": "bootstrap-page-overwritten(present with other content)",
+                                            "msg": "row %r: %r -> %r" % (key, row, after[key])}))
             elif after[key] != row:
                 table_bad = table_bad or ("row-differs", "row %r: %r -> %r" % (key, row, after[key]))
         for key, row in after.items():
@@ -733,6 +789,7 @@ def _execute(case, obs, base):
     # workers that entered (or, on trees that serialise the restore, contended for) the restore window
     restorers = sorted({w for _, w, l in events if l in ("db.unlink", "bk.rename", "restore.contend")})
     raced = has_bk and len(restorers) >= 2
+    contenders = {w for _, w, l in events if l == "restore.contend"}
     crit = []
     rank = {}
     seenwl = set()
@@ -752,6 +809,10 @@ def _execute(case, obs, base):
         return n
     ov_c, ov_b = overlaps(intervals["create_db"]), overlaps(intervals["boot"])
     cs_overlap = overlaps(crit_sections)
+    # on trees that serialise the restore: when every contender's critical section was seen and no two
+    # overlapped, mutual exclusion held in this run and nothing is attributed to a restore race
+    if contenders and len(crit_sections) >= len(contenders) and cs_overlap == 0:
+        raced = False
 
     tags = []
     if has_bk:
@@ -766,22 +827,64 @@ def _execute(case, obs, base):
         tags.append("long-lived-worker")
     if case.get("spawn"):
         tags.append("separately-started-interpreters")
+    if case.get("tmpd"):
+        tags.append("db-in-gettempdir")
     boot_tag = "bootstrap-present" if case["boot"] else "bootstrap-absent"
 
     # bootstrap writes: (worker, time of the add line, time of the commit line or None)
-    boot_add, boot_commit, lua_start = {}, {}, {}
+    boot_add, boot_commit, lua_start, boot_abort = {}, {}, {}, {}
     for t, w, l in events:
         if l == "boot.add":
             boot_add.setdefault(w, t)
         elif l == "boot.commit":
             boot_commit.setdefault(w, t)
-        elif l == "boot.exists?":
+        elif l == "add_empty_sandbox_lua_module>":
             lua_start.setdefault(w, t)
+        elif l == "add_empty_sandbox_lua_module!":
+            boot_abort.setdefault(w, t)
+    for w, t in lua_start.items():
+        boot_add.setdefault(w, t)      # trees that do not write through add_page(): the function's entry stands for the write
     late_lua_starts = sum(1 for w, t in lua_start.items()
                           if any(w2 != w and t0 < t and ends.get(w2, 0) - t >= 5.0 for w2, t0 in boot_add.items()))
+    # a context's close removed the shared store (observed by the closing worker itself)
+    deleted_by_close = bool(case.get("tmpd")) and any(there and not after_ for _, _, there, after_ in closers)
+    # iterate-mode workers whose first Lua use came after another worker's bootstrap commit while
+    # their own get_all_pages() cursor was open (the stale-read-snapshot situation)
+    # (a commit line event is logged BEFORE the commit executes; it is complete when the function returns)
+    def foreign_commit_during(w, t):
+        # another worker was inside its bootstrap write between this worker's cursor opening and t
+        return any(w2 != w and t0 < t and t1 > iter_span[w][0] for t0, t1, w2 in intervals["boot"])
+    stale_snapshot_lua = sum(1 for w, t in lua_start.items() if w in iter_span and iter_span[w][0] <= t <= iter_span[w][1]
+                             and foreign_commit_during(w, t))
+    # workers whose own bootstrap write was aborted (add line reached, commit line never) while their
+    # get_all_pages() cursor was open and another worker had committed since the cursor was opened
+    stale_abort = {w for w, t in boot_abort.items() if w in iter_span and iter_span[w][0] <= t <= iter_span[w][1]
+                   and foreign_commit_during(w, t)}
     out = []
     symptoms = {}
+    first_lua_fail = {}
+    follow_on = 0
     for cls, d in anomalies:
+        if deleted_by_close and cls in ("result", "table", "integrity") or (deleted_by_close and cls == "exc" and d.get("sqlite") != "locked"
+                                                                            and d["type"] not in ("IntegrityError", "CpuBudget")):
+            sym = {"exc": "raises:" + str(d.get("type")), "result": "page-result:" + str(d.get("sub")),
+                   "table": "pages-table:" + str(d.get("sub"))}.get(cls, cls)
+            symptoms["tmpd:" + sym] = symptoms.get("tmpd:" + sym, 0) + 1
+            out.append((TMPD, [], json.dumps(dict(d, symptom=sym, closers=[(w, a, b) for _, w, a, b in closers][:6]), ensure_ascii=False, default=str)[:700]))
+            continue
+        w_ = d.get("w")
+        if w_ in first_lua_fail and ((cls == "exc" and d.get("phase") == "page" and str(d.get("inner", "")).startswith("luaexec.py"))
+                                     or (cls == "result" and d.get("sub") == "missing-dependency-or-lua-error")):
+            # the same worker's Lua initialisation already failed: a consequence, reported under that mechanism
+            follow_on += 1
+            out.append((first_lua_fail[w_][0], first_lua_fail[w_][1], json.dumps(dict(d, follows="failed Lua initialisation of this worker"), ensure_ascii=False, default=str)[:700]))
+            continue
+        if cls == "result" and w_ in stale_abort and d.get("got") and "OperationalError" in str(d["got"][0]):
+            # the lock failure of this worker's bootstrap write was caught by a parser function's error
+            # handler (`#if: OperationalError` in the output) instead of propagating
+            out.append((STALE, [], json.dumps(dict(d, symptom="caught by the enclosing parser function, error text in the page result"),
+                                              ensure_ascii=False, default=str)[:700]))
+            continue
         if cls == "exc" and d.get("sqlite") == "locked":
             # trace fact: another worker wrote the bootstrap row >= 2 s before this failure, never reached
             # its commit line before the failure, and was still alive when it happened
@@ -795,12 +898,15 @@ def _execute(case, obs, base):
                    "integrity": "integrity-check"}.get(cls, cls)
             symptoms[sym] = symptoms.get(sym, 0) + 1
             d = dict(d, symptom=sym, restorers=restorers)
+        if cls == "exc" and d.get("phase") == "lua-init":
+            first_lua_fail.setdefault(w_, (sig, stags))
         out.append((sig, stags, json.dumps(d, ensure_ascii=False, default=str)[:700]))
 
-    info.update({"crit": crit, "restorers": restorers, "raced": raced, "ov_create_db": ov_c, "ov_boot": ov_b,
+    info.update({"crit": crit, "restorers": restorers, "raced": raced, "contended": has_bk and len(restorers) >= 2, "ov_create_db": ov_c, "ov_boot": ov_b,
                  "wall": wall, "pages_done": pages_done, "exc_types": exc_types, "anchors": anch, "boot_added": boot_added,
                  "rows": len(before), "lua_first": bool(lua_first), "workers": len(pl), "site": site,
-                 "n_events": len(events), "boot_written": len({w for _, w, l in events if l == "boot.add"}), "late_lua_starts": late_lua_starts, "salts": salts_seen, "cs_overlap": cs_overlap, "race_symptoms": symptoms, "anomaly_classes": sorted({c for c, _ in anomalies})})
+                 "n_events": len(events), "boot_written": len({w for _, w, l in events if l == "boot.add"}), "late_lua_starts": late_lua_starts, "salts": salts_seen, "cs_overlap": cs_overlap, "iter_workers": len(iter_span), "stale_snapshot_lua": stale_snapshot_lua,
+                 "deleted_by_close": deleted_by_close, "follow_on": follow_on, "late_closers": sum(1 for t, w, a, b in closers if not a), "race_symptoms": symptoms, "anomaly_classes": sorted({c for c, _ in anomalies})})
     return out, info
 
 
@@ -819,6 +925,8 @@ def signature(cls, d, raced, tags, boot_tag):
             if d.get("waited", 0) >= 2.0:
                 return "worker-raises:%s(locked)/after-busy-wait>=2s%s" % (
                     typ, "/bootstrap-write-of-a-live-worker-left-uncommitted" if d.get("holder_uncommitted") else ""), []
+            if d.get("own_cursor_open") and typ == "OperationalError":
+                return STALE, []
             return "worker-raises:%s(locked)/without-waiting" % typ, []
         name = typ + ("(%s)" % sq if sq and sq != "other" else "")
         if sq is None and typ not in ("IntegrityError", "CpuBudget"):
@@ -831,6 +939,8 @@ def signature(cls, d, raced, tags, boot_tag):
     if cls in ("table", "integrity"):
         if raced:
             return RACE, [t for t in tags if t == "separately-started-interpreters"]
+        if cls == "table" and d["sub"].startswith("bootstrap-page-overwritten"):
+            return "pages-table-changed:" + d["sub"], []
         return "pages-table-changed:%s" % (d["sub"] if cls == "table" else "integrity-check"), tags
     if cls == "hang":
         return "worker-hang", tags
@@ -857,12 +967,14 @@ def case_features(case):
         f.add("long-lived-worker")
     if case.get("spawn"):
         f.add("separately-started-interpreters")
+    if case.get("tmpd"):
+        f.add("db-in-gettempdir")
     f.add("bootstrap-present" if case["boot"] else "bootstrap-absent")
     return f
 
 
 def case_tag(case):
-    return ("spawn:" if case.get("spawn") else "") + "%s/%s/k%d%s" % (case["var"], "boot" if case["boot"] else "noboot", case["k"], "/slow" if case.get("slow") else ("/long%d" % case["long"] if case.get("long") else ""))
+    return ("spawn:" if case.get("spawn") else "") + "%s/%s/k%d%s" % (case["var"], ("foreignboot" if case["boot"] == "foreign" else "boot") if case["boot"] else "noboot", case["k"], "/slow" if case.get("slow") else "/tmpd" if case.get("tmpd") else ("/long%d" % case["long"] if case.get("long") else ""))
 
 
 def run_shard(spec):
@@ -903,6 +1015,15 @@ def run_shard(spec):
                 obs.count("spawn+backup.runs")
                 if len(info["restorers"]) >= 2:
                     obs.count("spawn+backup.restore-contended-by>=2.runs")
+        obs.count("iterate-mode.workers", info["iter_workers"])
+        obs.count("iterate-mode.first-lua-after-foreign-commit-with-own-cursor-open", info["stale_snapshot_lua"])
+        obs.count("follow-on-failures-after-failed-lua-init", info["follow_on"])
+        if case["boot"] == "foreign":
+            obs.count("variant.bootstrap-present-with-other-content")
+        if case.get("tmpd"):
+            obs.count("variant.db-in-gettempdir")
+            if info["deleted_by_close"]:
+                obs.count("db-in-gettempdir.store-removed-by-a-close.runs")
         if info["cs_overlap"]:
             obs.count("restore.critical-sections-overlapped.runs")
         if case.get("long"):
@@ -917,6 +1038,8 @@ def run_shard(spec):
         if info["ov_boot"]:
             obs.count("overlap.bootstrap-window.runs")
         if info["raced"]:
+            obs.count("restore.attributed-to-race.runs")
+        if info["contended"]:
             obs.count("restore-window-entered-by>=2.runs")
         obs.maxi("restorers-in-one-run", len(info["restorers"]))
         if info["boot_added"]:
@@ -933,7 +1056,7 @@ def run_shard(spec):
         for c in info["anomaly_classes"]:
             obs.count("anomaly." + c)
         for c, n in info["race_symptoms"].items():
-            obs.count("restore-race.symptom." + c, n)
+            obs.count(("symptom." + c) if c.startswith("tmpd:") else ("restore-race.symptom." + c), n)
         site = info["site"]
         for t in site.order:
             for f in site.features(t):
